@@ -335,6 +335,17 @@ def write_and_run(prop, obl, prog):
     return path, code == 1
 
 
+def write_only(prop, obl):
+    os.makedirs(os.path.join(VERIF, "replays"), exist_ok=True)
+    path = os.path.join(VERIF, "replays", f"{prop}__{_safe(obl['name'])}.json")
+    doc = {"property": prop, "obligation": {k: v for k, v in obl.items() if k != "scenario"},
+           "scenario": obl.get("scenario"), "note": "not replayed in this run (replay budget); run it with the command below",
+           "how_to_run": f"cd /verif && ./check replay {path}"}
+    with open(path, "w") as fh:
+        json.dump(doc, fh, indent=1, default=str)
+    return path
+
+
 def _run(path):
     env = dict(os.environ)
     env["PYTHONPATH"] = REPO_SRC + os.pathsep + VERIF
